@@ -1019,6 +1019,27 @@ def gen_tcp_case(g, tier):
             if final:
                 pending.remove(t)
             continue
+        if len(conns) >= 2 and g.chance(0.08):
+            # an RFC 2543 sender forks one request over two connections: same sent-by, same Call-ID and CSeq, two distinct
+            # branches WITHOUT the magic cookie - two transactions, each answered on its own connection
+            c1, c2 = g.r.sample(conns, 2)
+            c2["sentby"], c2["rport"], c1["rport"] = c1["sentby"], False, False
+            dl = Dialog(g, 500 + len(branches))
+            cs0 = dl.cseq
+            stem = g.word(ALNUM, 5, 9)
+            meth = g.pick(["INVITE", "OPTIONS", "MESSAGE"])
+            for cnx, brx in ((c1, g.pick(["1", "a", ""]) + stem), (c2, stem + g.pick(["2", "b", "-x"]))):
+                if brx in branches:
+                    continue
+                branches.add(brx)
+                dl.cseq = cs0
+                viax = Via("TCP", cnx["sentby"][0], cnx["sentby"][1], [("branch", brx)])
+                mx = dialog_msg(c, g, meth, "sip:svc.test", dl, True, with_ttag=False, vias=[viax])
+                ops.append("pipe raw p=0 from=%s peer=%s port=%d tcp=%d rx=0 msg=%s # spec=C03 %s" % (
+                    lst.tok(), hx("127.0.0.1"), cnx["port"], cnx["id"], hx(mx), expect_dest("B", None, w.backends[0])))
+                pending.append({"conn": cnx, "method": meth, "via": viax.stamped("127.0.0.1", cnx["port"]) if rcvd else viax, "d": dl})
+            g.count("tcp_legacy_fork_without_cookie")
+            continue
         cn = g.pick(conns)
         br = "z9hG4bK" + g.word(ALNUM.upper(), 6, 10)
         if long_prefix:
